@@ -5,6 +5,9 @@ package crypto
 import (
 	"crypto/ecdsa"
 	"crypto/elliptic"
+	"crypto/rand"
+	"io"
+	"time"
 	"crypto/hkdf"
 	"crypto/sha256"
 	"math/big"
@@ -442,6 +445,60 @@ func zzC12_mapToFr(n int) {
 	verifAssert(frIsOS2IPModR(&x, b0), "mapToFr(b) = OS2IP(b) mod r")
 	verifAssert(isZero == x.isZero(), "returned flag = (result is zero)")
 	verifReach("mapToFr")
+}
+
+type c12SlowReader struct{ r io.Reader }
+
+func (s c12SlowReader) Read(p []byte) (int, error) {
+	time.Sleep(200 * time.Microsecond)
+	return s.r.Read(p)
+}
+
+// zzC12_concurrent: key generation is a function of the seed also when several goroutines generate keys at once
+// (symbolically one call runs; buffers handed to a sync.Pool must not be touched afterwards -- the executor checks
+// that; natively goroutines generate keys concurrently under the race detector and compare with sequential results)
+func zzC12_concurrent(algoKind int) {
+	algo := BLSBLS12381
+	if algoKind > 0 {
+		algo = ecdsaAlgoOf(algoKind - 1)
+	}
+	const k = 8
+	seeds := make([][]byte, k)
+	want := make([][]byte, k)
+	base := nondetBytes(KeyGenSeedMinLen)
+	for i := range seeds {
+		seeds[i] = append(append([]byte{}, base...), byte(i))
+	}
+	for i := range seeds {
+		sk, err := GeneratePrivateKey(algo, seeds[i])
+		verifAssume(err == nil)
+		want[i] = sk.Encode()
+		if !verifNative() {
+			break // (one sequential generation is enough symbolically)
+		}
+	}
+	if verifNative() {
+		// natively the window between handing a buffer back and wiping it is widened by a slow entropy source
+		// (overwrite() draws from crypto/rand), as a concurrent workload on a loaded machine would
+		old := rand.Reader
+		rand.Reader = c12SlowReader{old}
+		defer func() { rand.Reader = old }()
+	}
+	verifParallel(k, func() {
+		for rep := 0; rep < verifNativeRepeat(60); rep++ {
+			for i := range seeds {
+				sk, err := GeneratePrivateKey(algo, seeds[i])
+				verifAssert(err == nil, "concurrent key generation succeeds")
+				if err == nil {
+					assertEqBytes(sk.Encode(), want[i], "concurrent key generation returns the key of the seed")
+				}
+				if !verifNative() {
+					return
+				}
+			}
+		}
+	})
+	verifReach("keygen concurrent")
 }
 
 func refSHA2_256(data []byte) []byte { d := sha256.Sum256(data); return d[:] }
